@@ -223,6 +223,20 @@ class ZoneAnalysis:
             return z
         bo = ir.as_binop(n)
         if not bo:
+            # x.empty()  <=>  x.size() == 0 (the container's own empty(), or empty() of an object whose size() is tracked)
+            if n.get("k") == "call" and short(n.get("name") or "") == "empty" and not [a for a in n.get("args", []) if a.get("k") != "defarg"]:
+                sz = dict(n)
+                sz["name"] = (n.get("name") or "empty")[:-5] + "size"
+                sz["callee"] = None
+                a = self.lin(sz)
+                if a is not None:
+                    x, cx = a
+                    if truth:
+                        z.add(x, Z, -cx)
+                        z.add(Z, x, cx)
+                    else:
+                        z.add(Z, x, cx - 1)  # size >= 1
+                    return z.close()
             return z
         op, l, r = bo
         if op == "&&":
